@@ -50,7 +50,9 @@ def run_validate(ctx, schema, doc, rules, case, max_errors=BIG):
 
 
 def diff(a, b):
-    return {"only_first": [list(map(str, k)) for k in (a - b)][:4], "only_second": [list(map(str, k)) for k in (b - a)][:4]}
+    def show(k):
+        return [k] if isinstance(k, str) else list(map(str, k))
+    return {"only_first": [show(k) for k in (a - b)][:4], "only_second": [show(k) for k in (b - a)][:4]}
 
 
 def check_doc(ctx, schema, text, rng, origin, schema_snapshot, schema_index=None):
